@@ -5,6 +5,7 @@ import (
 	"context"
 	"fmt"
 	"net"
+	"strings"
 	"testing"
 
 	tq "github.com/facebookincubator/tacquito"
@@ -59,7 +60,7 @@ func genC13(t *rapid.T) c13Case {
 	if rapid.IntRange(0, 3).Draw(t, "keychain_fault") == 0 {
 		for i := range c.Cfg.Secrets {
 			if rapid.IntRange(0, 2).Draw(t, "key_fails") == 0 {
-				c.FaultyKeys = append(c.FaultyKeys, fmt.Sprintf("key-%d", i))
+				c.FaultyKeys = append(c.FaultyKeys, c.Cfg.Secrets[i].Secret.Key)
 			}
 		}
 	}
@@ -105,6 +106,17 @@ func genC13Config(t *rapid.T) cfggen.Config {
 			sec.SetPrefixes(append([]string{"not-a-prefix", "10.1.2.3"}, ps...))
 		}
 		c.Cfg.Secrets = append(c.Cfg.Secrets, sec)
+	}
+	// keychain entries are (group, key) pairs; in one configuration in four the first scopes use pairs that
+	// are different entries (and different keys) but read the same once group and key are written one after
+	// the other with a separator: (a, b/c/d), (a/b, c/d), (a/b/c, d)
+	if ns >= 2 && rapid.IntRange(0, 3).Draw(t, "lookalike_keychain_entries") == 0 {
+		sep := rapid.SampledFrom([]string{"/", "/", ":", ".", "-", "_", "|", " ", ""}).Draw(t, "entry_sep")
+		tok := []string{"net", "core", "k1", "x"}
+		for i := 0; i < ns && i < 3; i++ {
+			c.Cfg.Secrets[i].Secret.Group = strings.Join(tok[:i+1], sep)
+			c.Cfg.Secrets[i].Secret.Key = strings.Join(tok[i+1:], sep)
+		}
 	}
 	nu := rapid.IntRange(1, 5).Draw(t, "nusers")
 	for i := 0; i < nu; i++ {
@@ -332,6 +344,9 @@ func classifyC13(c c13Case) {
 		all = append(all, s.Prefixes...)
 	}
 	nt := false
+	if len(c.Cfg.Secrets) >= 2 && c.Cfg.Secrets[0].Secret.Group == "net" {
+		ev.Class("keychain-entries-that-read-alike")
+	}
 	for _, p := range c.Probes {
 		a := cfggen.Addr(p.Addr)
 		if c.Cfg.Admit(a).Grey {
